@@ -37,7 +37,8 @@ ASSUMPTIONS = [
 LOWERED = {"select", "where", "array_assign", "section", "kwarg",
            "array_intrinsic", "codeblock", "neg_bounds"}
 
-PROFILE = gf.make_profile(kinds={"print": 1, "return": 1}, neg_bounds=True)
+PROFILE = gf.make_profile(kinds={"print": 1, "return": 1, "matmul": 1},
+                          neg_bounds=True, rich_intrinsics=True)
 
 
 def roundtrip(src):
